@@ -424,7 +424,7 @@ structure HashKey where
 
 def hashKey (r : Requirement) : HashKey :=
   { name := Names.canon r.name
-    extras := sortBy strLe r.extras
+    extras := sortBy strLe (dedup r.extras)
     spec := sortBy strLe (dedup (r.spec.map key))
     url := r.url
     marker := r.marker.map Mk.hashKey }
